@@ -140,6 +140,29 @@ func TestVerif_C09(t *testing.T) {
 			}
 			time.Sleep(100 * time.Microsecond)
 		}
+		w.mu.Lock()
+		answered := len(w.oks) == totalEv*nch && len(w.counts) == totalCnt*nch
+		w.mu.Unlock()
+		if !answered {
+			// the precondition of the property (every child answers every request) is not
+			// met: nothing can be concluded about the merged replies of this session
+			var stuck []string
+			for _, g := range vk.Goroutines() {
+				if strings.Contains(g.Stack, "mChild") {
+					stuck = append(stuck, g.Stack)
+				}
+			}
+			for _, st := range stuck {
+				if strings.Contains(st, "mChild).emit") {
+					rep.Violation("session/child-output-not-consumed", "a child is blocked handing its reply to the merged handler", map[string]any{"children": nch, "sent": log, "stack": st})
+					return
+				}
+			}
+			w.mu.Lock()
+			rep.Inconclusive(fmt.Sprintf("C09: the scripted children emitted %d of %d OKs and %d of %d COUNTs within the bound (session %d); child goroutines: %s", len(w.oks), totalEv*nch, len(w.counts), totalCnt*nch, i, strings.Join(stuck, " || ")))
+			w.mu.Unlock()
+			return
+		}
 		if !cl.barrier("zz-barrier") {
 			rep.Violation("session/stalled", "the final barrier COUNT was not answered: the merged handler lost a reply or stopped", map[string]any{"children": nch, "sent": log, "received": describeRecv(cl.snapshot())})
 			return
